@@ -243,6 +243,7 @@ def run(ctx):
                     if s.rv is not None and s.rv.k == "bin" and s.rv.j["op"] in ("Shr", "ShrUnchecked", "Div"):
                         o = prim.origin_of_operand(bf, s.rv.ops[1])
                         ol = [y.a.get("local") for y in o.walk() if y.k == "var"] + ([s.rv.ops[1].place.local] if s.rv.ops[1].place is not None else [])
+                        ol = [m for l0 in ol if l0 is not None for m in prim.move_chain(bf, l0)]
                         if locs & set(ol):
                             how = s.rv.j["op"]
             ctx.ob("R4", "unit-constant-role", how is not None and len(locs) == 1, "the per-unit constant must be the shift amount (or divisor) applied to the byte size; found role %s" % how, fn=bf, how="provenance slice")
